@@ -17,6 +17,7 @@ RULE = ("exhaustive: every `_NNN` constructor found in src/response.rs by regex,
 ASSUMPTIONS = ["the translator props/c20.py (regex-based) reads the tables correctly; validated exhaustively by the correspondence run",
                "spec classes of the 28 error variants are hand-written from the documentation (Spec/ErrorClasses.v)"]
 EXHAUSTIVE = {"quick": True, "thorough": True}
+MARKED = True   # the connection loop under test prints "ERROR ..." to stdout; observation lines carry the @@ mark
 TRUSTED_EXTRA = ["translator props/c20.py: regenerates Generated/StatusTables.v from src/response.rs, src/http_error.rs, src/http_conn.rs on every run"]
 
 def coq_bytes(s):
@@ -157,7 +158,7 @@ def pre_proof():
         open(path, "w").write(txt)
     return t["problems"]
 
-ERRKINDS = ["NotFound", "PermissionDenied", "InvalidData", "UnexpectedEof", "Other"]
+ERRKINDS = ["NotFound", "PermissionDenied", "InvalidData", "UnexpectedEof", "Other", "ConnectionRefused", "ConnectionReset", "ConnectionAborted", "NotConnected", "AddrInUse", "AddrNotAvailable", "BrokenPipe", "AlreadyExists", "WouldBlock", "InvalidInput", "TimedOut", "WriteZero", "Interrupted", "Unsupported", "OutOfMemory", "StorageFull", "QuotaExceeded", "FileTooLarge", "ReadOnlyFilesystem", "DirectoryNotEmpty", "IsADirectory", "NotADirectory", "ResourceBusy", "Deadlock", "TooManyLinks", "InvalidFilename", "ArgumentListTooLong", "HostUnreachable", "NetworkUnreachable", "NetworkDown", "NotSeekable", "StaleNetworkFileHandle", "CrossesDevices", "ExecutableFileBusy"]
 PAYLOADS = ["/etc/passwd", "/var/cache/upload/1234abcd", "No such file or directory (os error 2)", "zq7Kx\r\nSet-Cookie: evil=1",
             "\r\n\r\nHTTP/1.1 200 OK", "permission denied: C:\\secret\\file.txt", "\u00e9\u00e8 caf\u00e9 non-ascii", "", "xy",
             "HttpError::ErrorReadingFile", "internal server Error!"]
@@ -173,8 +174,9 @@ def gen(rng, tier):
         pls.append("".join(rng.choice("abcdefghijklmnopqrstuvwxyz/\\ .:-_\r\n\t\"'%") for _ in range(ln)))
     for v, pl in t["variants"]:
         if pl:
+            # every io::ErrorKind the toolchain knows x a few payload texts; the full payload list for the first five
             for k in range(len(ERRKINDS)):
-                for p in pls:
+                for p in (pls if k < 5 else pls[:3] + [rng.choice(pls)]):
                     cases.append("err x%s %d x%s" % (v.encode().hex(), k, p.encode("utf-8").hex()))
         else:
             cases.append("err x%s 0 x" % v.encode().hex())
@@ -194,6 +196,17 @@ def gen(rng, tier):
         code = rng.choice([rng.randint(100, 999), rng.randint(480, 620)])
         hs = [rng.choice(user) for _ in range(rng.randint(1, 3))]
         cases.append("conn %d %s" % (code, " ".join("%s %s" % (hx(n), hx(v)) for n, v in hs)))
+    # the error path of the connection loop: a request-reading error is answered with its mapped response; a 5xx among
+    # them must carry the close marking like any other 5xx
+    reqs = [("UnsupportedProtocol", "GET / HTTP/1.0\r\n\r\n"), ("UnsupportedProtocol", "GET /a HTTP/2\r\nhost: x\r\n\r\n"),
+            ("MalformedRequestLine", "BAD\r\n\r\n"), ("MalformedRequestLine", "GET  / HTTP/1.1\r\n\r\n"),
+            ("MalformedPath", "GET x HTTP/1.1\r\n\r\n"), ("MalformedHeaderLine", "GET / HTTP/1.1\r\nbad\r\n\r\n"),
+            ("HeadTooLong", "GET / HTTP/1.1\r\nx: " + "a" * 9000), ("InvalidContentLength", "POST / HTTP/1.1\r\ncontent-length: x\r\n\r\n"),
+            ("InvalidContentLength", "POST / HTTP/1.1\r\ncontent-length: 1\r\ncontent-length: 1\r\n\r\na"),
+            ("UnsupportedTransferEncoding", "POST / HTTP/1.1\r\ntransfer-encoding: deflate\r\n\r\n"),
+            ("MalformedCookieHeader", "GET / HTTP/1.1\r\ncookie: bad\r\n\r\n"), ("Truncated", "GET / HT")]
+    for (v, b) in reqs:
+        cases.append("reqconn x%s x%s" % (v.encode().hex(), b.encode().hex()))
     # codes outside 100..999 are not in the property's range but exercise the close rule's edges
     for code in (0, 1, 99, 1000, 65535):
         cases.append("conn %d" % code)
